@@ -92,6 +92,11 @@ func (s *Server) Apply(l *raft.Log) interface{} {
 			defer func() {
 				recoveredStreams, recoveredGroups, err := s.finishedRecovery(l.Index)
 				if err != nil {
+					if s.isShutdown() {
+						// Don't panic if the server is shutting down.
+						s.logger.Errorf("fsm: Failed to recover from Raft log: %v", err)
+						return
+					}
 					panic(fmt.Sprintf("failed to recover from Raft log: %v", err))
 				}
 				s.logger.Debugf("fsm: Finished replaying Raft log, recovered %s and %s",
